@@ -9,6 +9,7 @@ Layer 1 (depth 1, input grids; one system per target kind and operation family)
     c09.ops.{SV,SLV,SA,SAb}    every operator / in-place operator / reflected operator x every operand of
                                every kind (python scalars, 0-d arrays, lists, 1-d / 2-d ndarrays, SparseVector,
                                SparseLogicalVector, SparseArray, length-1 operands of each kind)
+    c09.alias.{SV,SLV,SA,SAb}  in-place operators whose operand is taken from the target itself (sa[k:k+1], sa[k], sa, [sa[k]], sa[[k]], sa[:, j:j+1] ...)
     c09.unary.{...}            unary operators, conversions, reductions (axis x keepdims), queries, copy
     c09.index.{...}            __getitem__ / __setitem__ with every index form x every value form
     c09.ctor                   construction from every source kind
@@ -166,6 +167,7 @@ def operand_class(ok):
     if ok.startswith('heap-'):
         k = ok.split('-')[1]
         return ('sparse2' if k in ('SA', 'SAb') else 'sparse1') + ('-self' if ok.endswith('-self') else '-alias' if ok.endswith('-alias') else '')
+    if ok.startswith('alias-'): return ok
     if ok in ('pf', 'pi', 'pb', 'n0', 'nf', 'nb'): return 'scalar'
     if ok in ('SV', 'SLV'): return 'sparse1'
     if ok in ('SA', 'SAb'): return 'sparse2'
@@ -372,7 +374,7 @@ class Case:
     def run(self, real, ref, norm=None):
         T, td, O, od = self.T, self.td, self.O, self.od
         dT0 = dg(T); dO0 = dg(O) if O is not None else None
-        alias_T_O = O is not None and is_sparse(O) and bool(containers(T) & containers(O))
+        alias_T_O = getattr(self, 'alias', False) or (O is not None and is_sparse(O) and bool(containers(T) & containers(O)))
         # ---- reference
         status = 'ok'; exp = None; exp_target = None; why = ''
         try:
@@ -733,6 +735,91 @@ class OpsSystem(System):
 
     def nontrivial(self, st, a, obs): return st.nontriv
     def outcome(self, st, a, obs): return repr(st.okey if st.okey is not None else (self.tk, a[0], a[1][0], obs))
+
+# ---- Layer 1a': in-place operators whose operand ALIASES the target ------------------------------------------
+
+def alias_operand(T, td, spec):
+    """operand derived from the target itself -> (real operand, dense operand evaluated on the ORIGINAL image).
+    NumPy semantics: the operand is read before the update (NumPy buffers overlapping operands)."""
+    k = spec[0]
+    if k == 'self': return T, td.copy()
+    if k == 'openslice': return T[:], td.copy()
+    if k == 'rowslice': return T[spec[1]:spec[1] + 1], td[spec[1]:spec[1] + 1].copy()
+    if k == 'rows': return T[spec[1]:spec[2]], td[spec[1]:spec[2]].copy()
+    if k == 'row': return T[spec[1]], td[spec[1]].copy()
+    if k == 'negrow': return T[-1], td[-1].copy()
+    if k == 'rowlist': return [T[spec[1]]], td[spec[1]:spec[1] + 1].copy()
+    if k == 'rowtuple': return (T[spec[1]],), td[spec[1]:spec[1] + 1].copy()
+    if k == 'fancy': return T[[spec[1]]], td[[spec[1]]].copy()
+    if k == 'mask': 
+        m = [i == spec[1] for i in range(len(td))]
+        return T[np.array(m)], td[np.array(m)].copy()
+    if k == 'col': return T[:, spec[1]:spec[1] + 1], td[:, spec[1]:spec[1] + 1].copy()
+    if k == 'colint': return T[:, spec[1]], td[:, spec[1]].copy()
+    if k == 'selflist': return [T], td[None].copy() if td.ndim == 1 else td.copy()[None]
+    if k == 'half': return T[0:1], td[0:1].copy()            # vectors: a slice (a dense copy in the library)
+    raise ValueError(spec)
+
+
+class AliasSystem(OpsSystem):
+    """target op= <operand taken from the target itself>: one-row 2-d slices sa[k:k+1] (every k), row views sa[k], the target itself, multi-row
+    slices, a row inside a list / tuple, fancy / mask selections, column slices; every in-place operator; compared with NumPy on a copy of the
+    dense image with the operand evaluated BEFORE the update."""
+    def __init__(self, tk):
+        super().__init__(tk)
+        self.name = f'c09.alias.{tk}'
+    def describe(self, tier): return dict(target_kind=self.tk)
+    def configs(self, tier, seed):
+        self._tier = tier
+        th = tier == 'thorough'
+        tk = self.tk
+        if tk == 'SV': return rot([('SV', d) for n in (1, 2, 3) for d in _grid((n,), VALS)], seed)
+        if tk == 'SLV': return rot([('SLV', d) for n in (1, 2, 3) for d in _grid((n,), BOOLS)], seed)
+        if tk == 'SAb':
+            return rot([('SAb', d) for shp in ((2, 2), (3, 2), (1, 2)) for d in _grid(shp, BOOLS)], seed)
+        out = [('SA', d) for d in _grid((2, 2), VALS if th else VALS3)] + [('SA', d) for d in _grid((1, 2), VALS)]
+        out += [('SA', d) for d in _grid((3, 2), VALS3 if th else VALS2)]
+        out += [('SA', ((1.0, 0.5), (0.5, -1.0), (-1.0, 1.0))), ('SA', ((0.5, 0.0), (0.0, 1.0), (1.0, -1.0)))]      # fractions, both tiers
+        return rot(out, seed)
+    def actions(self, st):
+        shp = st.td.shape
+        key = shp
+        if key not in self._acts:
+            if len(shp) == 1:
+                specs = [('self',), ('openslice',), ('selflist',), ('half',)]
+            else:
+                m, n = shp
+                specs = [('self',), ('openslice',), ('negrow',)]
+                for k in range(m): specs += [('rowslice', k), ('row', k), ('rowlist', k), ('rowtuple', k), ('fancy', k), ('mask', k)]
+                for a in range(m):
+                    for b in range(a + 2, m + 1): specs.append(('rows', a, b))
+                for j in range(n): specs += [('col', j), ('colint', j)]
+            ops = list(IOP) if self.tk in ('SLV', 'SAb') else [o for o in IOP if o not in LOGICAL]
+            self._acts[key] = [(op, sp_) for sp_ in specs for op in ops]
+        return self._acts[key]
+    def step(self, st, a):
+        op, spec = a
+        T, td = st.T, st.td
+        st.okey = None
+        try:
+            O, od = alias_operand(T, td, spec)
+        except Exception as e:
+            raise Violation('unexpected-exception', f'taking {spec!r} of the target raises {type(e).__name__}: {e}',
+                            match=dict(fam='alias', tk=self.tk, okc='alias-' + spec[0], dev=type(e).__name__))
+        ok = 'alias-' + spec[0]
+        pat = pattern(td.shape, np.shape(od))
+        f = IOP[op]; g = BIN[op[1:]]
+        match = dict(fam='alias', tk=self.tk, opc=op_class(op), okc=ok, pcat=pattern_cat(pat, 'sparse2' if np.ndim(od) == 2 else 'sparse1'))
+        c = Case(match, T, td, O, od, inplace=True, grow_ok=(lambda x, y: g(x, y)), result='self', fine=dict(op=op, spec=spec, pat=pat))
+        c.alias = True
+        try:
+            obs = c.run(lambda x, y: f(x, y), lambda x, y: f(x, y))
+        except Rejected as r:
+            st.okey = (self.tk, op, ok, pat, r.what); raise
+        new = image(T)
+        st.nontriv = bool(np.any(new != td)) and spec[0] not in ('fancy', 'mask', 'col', 'colint', 'half')
+        st.okey = (self.tk, op, ok, pat, obs, bool(np.any((td != 0) & (new == 0))) if new.shape == td.shape else None)
+        return obs
 
 # ---- Layer 1b: unary operators, conversions, reductions, queries ----------------------------------------
 
@@ -1815,6 +1902,7 @@ def detuple_spec(spec):
 
 SYSTEMS = [
     OpsSystem('SV'), OpsSystem('SLV'), OpsSystem('SA'), OpsSystem('SAb'),
+    AliasSystem('SV'), AliasSystem('SLV'), AliasSystem('SA'), AliasSystem('SAb'),
     UnarySystem('SV'), UnarySystem('SLV'), UnarySystem('SA'), UnarySystem('SAb'),
     IndexSystem('SV'), IndexSystem('SLV'), IndexSystem('SA'), IndexSystem('SAb'),
     CtorSystem(),
